@@ -159,7 +159,7 @@ Definition chtimes (m : fsmap) (p : path) (t : Z) : option fsmap :=
   end.
 
 (* ------------------------------------------------------------------ unzip *)
-Record limits := mkLim { l_maxfile : Z; l_maxtotal : Z; l_maxcount : Z; l_maxdepth : Z }.
+Record limits := mkLim { l_maxfile : Z; l_maxtotal : Z; l_maxcount : Z; l_maxdepth : Z; l_rec : bool }.
 
 Record ustate := mkU {
   u_fs : fsmap;
@@ -183,6 +183,25 @@ Definition file_too_large (lim : option limits) (size : Z) : bool :=
 Definition totals_exceeded (lim : option limits) (total count : Z) : bool :=
   match lim with Some l => (l_maxtotal l <? total) || (l_maxcount l <? count) | None => false end.
 
+(* zip.go:25-53 ZipFileExtensions and the name test of IsZipWithContext (:575-591) on an entry name that does not exist on
+   the file system the archive is read from: strings.ToLower(filepath.Ext(name)) is one of the known extensions.
+   filepath.Ext: the suffix starting at the last '.' of the LAST path element ("" when the name ends with '/'). *)
+Definition lower (b : Z) : Z := if (65 <=? b) && (b <=? 90) then b + 32 else b.
+Fixpoint ext_aux (s : list Z) (cur : option (list Z)) : list Z :=      (* cur: the suffix since the last '.' (reversed) *)
+  match s with
+  | [] => match cur with Some r => rev r | None => [] end
+  | c :: r => if c =? slash then ext_aux r None
+              else if c =? dot then ext_aux r (Some [c])
+              else ext_aux r (match cur with Some x => Some (c :: x) | None => None end)
+  end.
+Definition ext_of (nm : list Z) : list Z := map lower (ext_aux nm None).
+Definition zip_extensions : list (list Z) :=
+  [ [46;122;105;112]; [46;122;105;112;120]; [46;55;122]; [46;115;55;122]; [46;103;122]; [46;116;97;114;46;103;122];
+    [46;116;103;122]; [46;120;122]; [46;108;122]; [46;108;122;109;97]; [46;114;122]; [46;112;97;99;107]; [46;122]; [46;106;97;114] ].
+    (* .zip .zipx .7z .s7z .gz .tar.gz .tgz .xz .lz .lzma .rz .pack .z .jar *)
+Definition zipext (nm : list Z) : bool := existsb (bytes_eqb (ext_of nm)) zip_extensions.
+Definition rec_applies (lim : option limits) : bool := match lim with Some l => l_rec l | None => false end.
+
 Definition set_dir (ds : list (path * Z)) (p : path) (t : Z) : list (path * Z) :=
   (p, t) :: filter (fun x => negb (path_eqb (fst x) p)) ds.
 
@@ -194,7 +213,12 @@ Definition unzip_entry (lim : option limits) (D : path) (s : ustate) (e : entry)
   | None => (s, UMalicious)
   | Some p =>
     if depth_exceeded lim D p then (s, UTooLarge) else    (* :314-325 *)
-    let s1 := mkU (u_fs s) (u_list s ++ [p]) (u_dirs s) (u_count s + 1) (u_total s) in   (* :328-331 *)
+    (* :343-347 "record unzipped files (except zip files if they get unzipped later)": the test is on the ENTRY NAME, so a
+       directory entry "x.gz/" (extension "") is recorded at once; a FILE with an archive extension is recorded after its
+       extraction when it turns out not to be an archive (:386-389).  Entries that ARE archives are not modelled. *)
+    let deferred := rec_applies lim && zipext (e_name e) in
+    let s1 := if deferred then s
+              else mkU (u_fs s) (u_list s ++ [p]) (u_dirs s) (u_count s + 1) (u_total s) in
     if e_isdir e then                                     (* :333-343 *)
       match mkdir_all (u_fs s1) p with
       | None => (s1, UErr)
@@ -217,7 +241,9 @@ Definition unzip_entry (lim : option limits) (D : path) (s : ustate) (e : entry)
             match chtimes m1 p (e_sec e * ns) with         (* :476-478 *)
             | None => (with_fs s1 m1, UErr)
             | Some m2 =>
-              let s2 := mkU m2 (u_list s1) (u_dirs s1) (u_count s1) (u_total s1 + size) in
+              let s2 := if deferred
+                        then mkU m2 (u_list s1 ++ [p]) (u_dirs s1) (u_count s1 + 1) (u_total s1 + size)
+                        else mkU m2 (u_list s1) (u_dirs s1) (u_count s1) (u_total s1 + size) in
               if totals_exceeded lim (u_total s2) (u_count s2) then (s2, UTooLarge) else (s2, UOk)   (* :378-383 *)
             end
           end
@@ -528,6 +554,19 @@ Definition meth_ok (m : meth) : bool :=
   (* (b) no backend mention is reached when closed, except in the audited list *)
   && (match o with OBackend => in_list unguarded_backend_mentions (m_name m) | _ => true end).
 
+(* ------------------------------------------------------------------ Close (resource.go:23-34, files.go VFS.Close) *)
+(* (returned nil, closed flag set) as a function of whether closing the underlying archive file fails; an unrecognised
+   shape is given the worst behaviour (reports success without setting the flag). *)
+Definition resource_close (sh : rshape) (underlying_fails : bool) : bool * bool :=
+  match sh with
+  | RCloseThenFlag => (negb underlying_fails, negb underlying_fails)
+  | RUnknown => (true, false)
+  end.
+Definition vfs_close (vsh : vshape) (r : bool * bool) : bool * bool :=
+  match vsh with VPropagate => r | VUnknown => (true, snd r) end.
+Definition close_model (underlying_fails : bool) : bool * bool :=
+  vfs_close vfs_close_shape (resource_close resource_close_shape underlying_fails).
+
 (* ------------------------------------------------------------------ correspondence cases *)
 Record onode := mkO { o_path : path; o_isdir : bool; o_data : list Z; o_mtime : Z (* ns *) }.
 
@@ -539,7 +578,8 @@ Inductive case :=
          (res : ures) (flist : list path) (dump : list onode)
 | CRaw (es : list entry) (D : path) (lim : option limits) (res : ures) (flist : list path) (dump : list onode)
 | CView (k : vkind) (es : list entry) (ops : list (vop * path)) (obs : list vobs)
-| CClosed (meth_name : string) (obs : cobs).
+| CClosed (meth_name : string) (obs : cobs)
+| CClose (underlying_fails : bool) (returned_nil : bool) (serves_nothing : bool).
 
 Definition ures_eqb (a b : ures) : bool :=
   match a, b with UOk, UOk | UMalicious, UMalicious | UTooLarge, UTooLarge | UErr, UErr => true | _, _ => false end.
@@ -609,4 +649,5 @@ Definition check_case (c : case) : bool :=
   | CRaw es D lim res fl dump => check_unzip lim D es res fl dump
   | CView k es ops obs => vobs_list_eqb (view_run k (view_index k es) [] ops) obs
   | CClosed n o => check_closed n o
+  | CClose u rn sn => let '(a, b) := close_model u in Bool.eqb a rn && Bool.eqb b sn
   end.
